@@ -1,8 +1,8 @@
 SPECIFICATION CSpec
 CONSTANTS
   Letters = {97, 98}
-  MaxRules = 4
-  Ops = {0, 1, 2, 3}
+  MaxRules = 2
+  Ops = {0, 1, 2, 3, 7}
   Bug = ""
   Deviations = {}
 INVARIANTS TableIsRepl LeftoverIsLoop Conservation
